@@ -711,6 +711,10 @@ pub fn check_c03_chain(construct: &str, depth: usize, tail: bool, out: &mut Vec<
             if n_placeholders > 0 && kinds.is_empty() {
                 out.push(Failure::new("C03:include-chain:unsupported-construct-without-diagnostic", detail(format!("{n_placeholders} placeholders in the graph, no semantic diagnostic in any list"))));
             }
+            // every construct of the family is unsupported or faulty by construction
+            if kinds.is_empty() && n_placeholders == 0 {
+                out.push(Failure::new("C03:include-chain:construct-accepted-silently", detail("no semantic diagnostic in any list".into())));
+            }
             if res.symbol_table().verif_scope_depth() != 1 {
                 out.push(Failure::new("C03:include-chain:scope-left-open", detail(format!("depth {}", res.symbol_table().verif_scope_depth()))));
             }
@@ -733,6 +737,17 @@ pub const C03_CHAIN_CONSTRUCTS: &[&str] = &[
     "int[8] e = {1, 2};",
     "\"a string\";",
     "(1, 2);",
+    "def of(creg c[2]) { }",
+    "def of(int a, qreg q[3], bit b) { }",
+    "def of(qreg q) { }",
+    "bool nb = !true;",
+    "int bn = ~1;",
+    "creg oc2[2]; qreg oq2[2];",
+    "duration dd = durationof({U(0, 0, 0) $0;});",
+    "def af(readonly array[int, 2] a) { }",
+    "{ int nested_block; }",
+    "[1, 2];",
+    "int pw = 5; pw **= 2;",
     "int never_declared_target; undeclared_thing = 1;",
     "qubit dq; qubit dq;",
 ];
